@@ -35,7 +35,7 @@ def anchors(lentil):
             ('centroid', lentil.util.centroid)]
 
 
-_NOLL = rm.noll_table(2000)
+_NOLL = rm.noll_table(2000)   # n up to 61
 
 
 def index_oracle(ctx, args, kwargs, result, exc, pre):
@@ -105,7 +105,8 @@ def workload(ctx, lentil):
     # ---- (ii)/(iv) values on caller supplied polar coordinates -----------------------------------
     nv = 160 if ctx.tier == 'quick' else 900
     for i in range(nv):
-        j = int(rng.integers(1, min(jmax, 120) + 1)) if rng.random() < 0.8 else int(rng.integers(1, 29))
+        # up to radial order 26 (j = 378): beyond that float64 cancellation in any factorial sum exceeds the tolerance
+        j = int(rng.integers(1, 379)) if rng.random() < 0.8 else int(rng.integers(1, 29))
         shape = gen.rshape(rng, 1, 12)
         rho = rng.random(shape) ** 0.5
         if rng.random() < 0.2:
@@ -127,9 +128,9 @@ def workload(ctx, lentil):
         # float64 evaluation of an alternating factorial sum loses digits as n grows: allow cond(n)*eps
         cond = float(sum(abs(c) for c in rm.radial_coeffs(n, m).values()))
         cmp_mode(ctx, 'mode|value', 'mode differs from the textbook radial polynomial times its azimuthal factor',
-                 np.asarray(got, float), ref, par, desc, tol=64 * rm.EPS * max(cond, 1.0) * (np.sqrt(2 * (n + 1))), scale=1.0)
+                 np.asarray(got, float), ref, par, desc, tol=16 * (n + 4) * rm.EPS * max(cond, 1.0) * (np.sqrt(2 * (n + 1))), scale=1.0)
         if not normalize and cond * rm.EPS < 1e-6:
-            ctx.check(bool(np.all(np.abs(got) <= 1 + 64 * rm.EPS * cond)), '|Z|<=1', 'mode|bounded',
+            ctx.check(bool(np.all(np.abs(got) <= 1 + 16 * (n + 4) * rm.EPS * cond)), '|Z|<=1', 'mode|bounded',
                       'unnormalised mode exceeds 1 in magnitude on the unit disk', desc)
         else:
             ctx.oracle_evals['|Z|<=1'] += 0
